@@ -105,6 +105,7 @@ def judge(case):
                     if on != off:
                         out.bad("parsed-off-changes-frames",
                                 f"{case['name']} validate={v} labelmsm={lm} q={q}: raw sequences differ")
+    _int_flags(case, source, results, out)
     _interleaved(case, source, results, out)
     _seekable(case, source, results, out)
     out.states = len({e[1] if e[0] != "pair" else e[2] for _k, (_p, rec) in results.items()
@@ -113,6 +114,23 @@ def judge(case):
     out.obs = core.h64(repr((case["name"], [(k, [(a, b) for a, b, _, _ in v[0]])
                                             for k, v in sorted(results.items(), key=str)])))
     return out
+
+
+def _int_flags(case, source, results, out):
+    """parsed is documented as 1/0 as well as True/False; validate as 0/1 (also given as bools)."""
+    for (v, p, lm, q), (pairs, _rec) in list(results.items()):
+        if lm != 1 or q != 1:
+            continue
+        rec = H.execute(source, (), validate=bool(v), quitonerror=q, parsed=int(p), labelmsm=lm,
+                        faults=False)
+        got = [(e[1], e[2], e[3], attrs(e[4])) for e in rec["events"] if e[0] == "pair"]
+        want = [(a, b, r, attrs(m)) for a, b, r, m in pairs]
+        out.transitions += len(rec["events"])
+        if got != want:
+            out.bad("flag-type-changes-behaviour",
+                    f"{case['name']}: parsed={int(p)!r}, validate={bool(v)!r} behaves differently from "
+                    f"parsed={p!r}, validate={v!r}")
+            break
 
 
 def _seekable(case, source, results, out):
